@@ -941,6 +941,12 @@ fn gen_mixed(rng: &mut Rng, tech: &str, arch: &str, os: &str) -> Option<String> 
                     }
                     put(&mut words, start + k, Word::Val(ret));
                     s_new = start + k + 1;
+                    // x86-64: a word below the return address that points up the stack is taken for the
+                    // saved %rbp ONLY when the callee's %rbp points at that very word; with %rbp = 0 it
+                    // is junk like any other (it is no valid instruction: the stack is clear of modules)
+                    if arch == "amd64" && fp == Fp::Zero && k >= 1 && rng.chance(1, 2) {
+                        put(&mut words, start + k - 1, Word::Addr(s_new + 1 + rng.below(6)));
+                    }
                     // x86: the word below the return address is taken for the saved %ebp when it
                     // points further up the stack
                     let wants_live = matches!(t.kind, Kind::WinStd { .. } | Kind::WinRaAt { .. } | Kind::WinRa { .. } | Kind::Fpo { .. });
@@ -1336,6 +1342,14 @@ impl Engine for Chain {
                     mismatch(format!("frame {}: recovered {} = {:?} expected {}", i + 1, fp_name(&c.arch), got, want));
                     break;
                 }
+            } else if ft != "win" {
+                // no frame pointer claimed: off STACK WIN frames (C07's F8a) the theorems assert that
+                // the register is then NOT valid (FrameIsA.fp / scanFrame: nothing recovered)
+                let got = f.context.get_register(fp_name(&c.arch));
+                if got.is_some() {
+                    mismatch(format!("frame {}: recovered {} = {:?} expected none", i + 1, fp_name(&c.arch), got));
+                    break;
+                }
             }
             let mut bad_reg = false;
             for (r, want) in &e.regs {
@@ -1364,7 +1378,10 @@ impl Engine for Chain {
         if third.starts_with("win:") {
             let f: Vec<&str> = case.splitn(5, ' ').collect();
             if f.len() == 5 {
-                if f[3] == "win:-" {
+                // without STACK WIN records the walk is the `walk` engine's (mkEnv) — off x86, where
+                // mkEnvW = mkEnv is a theorem (MdProofs/C04Mixed.lean, mkEnvW_eq_mkEnv); x86 cases are
+                // always compared with `chain walk` (mkEnvW), the walk the x86 theorems are about
+                if f[3] == "win:-" && !f[4].starts_with("x86 ") {
                     Some(format!("walk {}", f[4]))
                 } else {
                     Some(format!("chain walk {} {}", f[3], f[4]))
